@@ -131,6 +131,67 @@ def gen_reports(rng, tier):
         yield dict(batch=b, file=rng.choice(['inputs/example_games.py', 'inputs/board_3_copy.py', 'x.py', 'inputs/robot_47_w5_l5_r6_rb10.py', 'some/dir/a_1.py', 'inputs/happy.py']))
 
 
+def verify_report(files, in_file, res, how=''):
+    """the report written for `res` (an ordered result dictionary) when the input file is `in_file`: named after the input, one block
+    per entry in order, every line reads back to the entry's value"""
+    F = []
+    stem = in_file.split('/')[-1].split('.')[0]
+    out = f'outputs/{stem}.txt'
+    outs = [k for k in files if k != in_file]
+    if outs != [out]:
+        F.append(({'C16'}, 'report-named-after-input', how + f'report written to {outs}, expected [{out!r}] for input {in_file!r}'))
+        return F
+    blocks = files[out].split('=' * 160 + '\n')
+    if blocks[0] != '' or len(blocks) - 1 != len(res):
+        F.append(({'C16'}, 'one-block-per-entry', how + f'{len(blocks) - 1} blocks for {len(res)} entries'))
+        return F
+    for blk, (name, e) in zip(blocks[1:], res.items()):
+        ls = blk.split('\n')
+        if len(ls) != len(LINES) + 1 or ls[-1] != '':
+            F.append(({'C16'}, 'block-lines', how + f'block of {name!r} has {len(ls) - 1} lines'))
+            break
+        for (label, fld), line in zip(LINES, ls):
+            if not line.startswith(label):
+                F.append(({'C16'}, 'line-label', how + f'block of {name!r}: line {line[:40]!r} should start with {label!r}'))
+                break
+            txt = line[len(label):]
+            if fld is None:
+                want, got = name, txt
+            elif fld == 'msg':
+                want, got = e['msg'], txt
+            else:
+                want = (e['reachability_strategies'] == e['final_strategies']) if fld == '==' else e[fld]
+                try:
+                    got = ast.literal_eval(txt)
+                except Exception:
+                    got = ('unparsable', txt)
+            if got != want:
+                F.append(({'C16'}, 'line-reads-back', how + f'block of {name!r}, line {label.strip()!r}: reads back {got!r}, the batch run produced {want!r}'))
+                break
+    return F
+
+
+def run_main(cr, argv):
+    """conditionalrewards.main() as the command line runs it; returns what run_games returned inside it"""
+    import sys
+    seen = {}
+    orig = cr.run_games
+
+    def spy(d):
+        seen['arg'] = copy.deepcopy(d)
+        seen['res'] = orig(d)
+        return seen['res']
+    cr.run_games = spy
+    old_argv = sys.argv
+    sys.argv = ['conditionalrewards.py'] + argv
+    try:
+        quiet(lambda: SC.timed(cr.main, 30))
+    finally:
+        sys.argv = old_argv
+        cr.run_games = orig
+    return seen
+
+
 def check_report(inp, mods, rng=None):
     mods = lib.load_repo()
     cr = mods['conditionalrewards']
@@ -153,39 +214,25 @@ def check_report(inp, mods, rng=None):
         files = dict(fs.files)
     if r2 != d:
         F.append(({'C16'}, 'input-read-as-written', f'reading {inp["file"]!r} again gives {str(r2)[:200]!r}..., the file denotes {str(d)[:200]!r}'))
-    stem = inp['file'].split('/')[-1].split('.')[0]
-    out = f'outputs/{stem}.txt'
-    outs = [k for k in files if k != inp['file']]
-    if outs != [out]:
-        F.append(({'C16'}, 'report-named-after-input', f'report written to {outs}, expected [{out!r}] for input {inp["file"]!r}'))
-        return F
-    blocks = files[out].split('=' * 160 + '\n')
-    if blocks[0] != '' or len(blocks) - 1 != len(res):
-        F.append(({'C16'}, 'one-block-per-entry', f'{len(blocks) - 1} blocks for {len(res)} entries'))
-        return F
-    for blk, (name, e) in zip(blocks[1:], res.items()):
-        ls = blk.split('\n')
-        if len(ls) != len(LINES) + 1 or ls[-1] != '':
-            F.append(({'C16'}, 'block-lines', f'block of {name!r} has {len(ls) - 1} lines'))
-            break
-        for (label, fld), line in zip(LINES, ls):
-            if not line.startswith(label):
-                F.append(({'C16'}, 'line-label', f'block of {name!r}: line {line[:40]!r} should start with {label!r}'))
-                break
-            txt = line[len(label):]
-            if fld is None:
-                want, got = name, txt
-            elif fld == 'msg':
-                want, got = e['msg'], txt
-            else:
-                want = (e['reachability_strategies'] == e['final_strategies']) if fld == '==' else e[fld]
-                try:
-                    got = ast.literal_eval(txt)
-                except Exception:
-                    got = ('unparsable', txt)
-            if got != want:
-                F.append(({'C16'}, 'line-reads-back', f'block of {name!r}, line {label.strip()!r}: reads back {got!r}, the batch run produced {want!r}'))
-                break
+    F += verify_report(files, inp['file'], res)
+    if F or 'results' in inp:
+        return F[:3]
+    # the same through the command line: `-f X -s` saves the result of running what X denotes under X's name; without -s nothing is written
+    for flags in (['-s'], []):
+        with MemFS() as fs:
+            fs.files[inp['file']] = repr(d)
+            try:
+                seen = run_main(cr, ['-f', inp['file']] + flags)
+            except BaseException as e:   # noqa
+                return [({'C16', 'C12'}, 'report-error', f'main(-f {inp["file"]} {flags}) ended with {type(e).__name__}: {e}')]
+            files = dict(fs.files)
+        how = f'[python conditionalrewards.py -f {inp["file"]} {" ".join(flags)}] '
+        if seen.get('arg') != d:
+            F.append(({'C16', 'C12'}, 'input-read-as-written', how + f'the batch was run on {str(seen.get("arg"))[:200]!r}, the file denotes {str(d)[:200]!r}'))
+        elif flags:
+            F += verify_report(files, inp['file'], seen['res'], how)
+        elif [k for k in files if k != inp['file']]:
+            F.append(({'C16'}, 'nothing-saved-without-flag', how + f'files written: {[k for k in files if k != inp["file"]]}'))
     return F[:3]
 
 
